@@ -29,6 +29,7 @@ pub const ECN: u32 = 1 << 17; // number of errors on a failed parse is zero or (
 pub const CON: u32 = 1 << 18; // ParseResult contract (has_output / has_errors / into_result) violated
 pub const LAZ: u32 = 1 << 19; // lazy(): accepts iff the grammar matches a prefix, with that prefix's output
 pub const DIF: u32 = 1 << 20; // differential pair disagrees
+pub const PUL: u32 = 1 << 22; // a Stream pulled an item twice or out of order
 pub const EMF: u32 = 1 << 21; // emissions preceding the failure of a backtracking-free (straight-line) grammar
 
 pub const CAT_NAMES: &[(&str, u32)] = &[
@@ -54,10 +55,30 @@ pub const CAT_NAMES: &[(&str, u32)] = &[
     ("lazy_prefix", LAZ),
     ("pair_differs", DIF),
     ("emissions_before_failure", EMF),
+    ("stream_pull_order", PUL),
 ];
 
 pub fn cat_names(mask: u32) -> Vec<&'static str> {
     CAT_NAMES.iter().filter(|(_, b)| mask & b != 0).map(|(n, _)| *n).collect()
+}
+
+thread_local! {
+    /// index of the last item the current Stream pulled from its iterator (None = nothing yet)
+    pub static PULL_LAST: std::cell::Cell<Option<usize>> = const { std::cell::Cell::new(None) };
+    /// set when an item is pulled twice or out of order
+    pub static PULL_BAD: std::cell::Cell<bool> = const { std::cell::Cell::new(false) };
+    /// total pulls (anti-vacuity) and number of rewinds crossing a 512-token batch boundary cannot be
+    /// observed from outside; the pull counter is reported
+    pub static PULLS: std::cell::Cell<u64> = const { std::cell::Cell::new(0) };
+}
+pub fn log_item((k, c): (usize, char)) -> char {
+    let expect = PULL_LAST.with(|l| l.get()).map_or(0, |x| x + 1);
+    if k != expect {
+        PULL_BAD.with(|b| b.set(true));
+    }
+    PULL_LAST.with(|l| l.set(Some(k)));
+    PULLS.with(|p| p.set(p.get() + 1));
+    c
 }
 
 // ---- raw observation -----------------------------------------------------------------------------------
@@ -75,6 +96,8 @@ pub struct RawObs {
     pub contract: Option<String>,
     /// `p.lazy().parse(w)`: (output, number of errors); only when the job asks for it
     pub lazy: Option<(Option<Val>, usize)>,
+    /// a counting Stream saw an item pulled twice or out of order
+    pub pull_bad: bool,
 }
 
 pub fn panic_msg(e: Box<dyn std::any::Any + Send>) -> String {
@@ -122,7 +145,7 @@ pub fn run_case<'a, I: InK<'a>, C: Cfg<'a, I>>(p: &BP<'a, I, C>, mk: &dyn Fn() -
         } else {
             None
         };
-        RawObs { out, errs, chk_out, chk_errs, st: s1, chk_st: st2.obs(), panic: None, contract, lazy: lz }
+        RawObs { out, errs, chk_out, chk_errs, st: s1, chk_st: st2.obs(), panic: None, contract, lazy: lz, pull_bad: false }
     }));
     match r {
         Ok(o) => o,
@@ -321,6 +344,9 @@ pub fn compare(kind: EK, obs: &RawObs, m: &Outcome, len: usize) -> u32 {
     }
     if obs.contract.is_some() || (!obs.chk_out && obs.chk_errs.is_empty()) {
         mask |= CON;
+    }
+    if obs.pull_bad {
+        mask |= PUL;
     }
     // direct well-formedness of error spans
     if kind != EK::Empty {
@@ -550,7 +576,11 @@ fn observe<'a, I: InK<'a>, C: Cfg<'a, I>>(
     unrender: &dyn Fn(char) -> char,
 ) -> (RawObs, u32, u32) {
     BUF.with(|b| b.set(buf(ii)));
+    PULL_BAD.with(|b| b.set(false));
     let mut obs = run_case::<I, C>(p, &|| mk(ii), lazy);
+    if PULL_BAD.with(|b| b.get()) {
+        obs.pull_bad = true;
+    }
     let nf = |s: (usize, usize), off: bool| norm(ii, s, off);
     let mut bad = (0, 0);
     if let Some(v) = obs.out.as_mut() {
@@ -795,12 +825,12 @@ pub fn ident(c: char) -> char {
     c
 }
 
-fn byte_table(s: &str) -> Vec<usize> {
+pub fn byte_table(s: &str) -> Vec<usize> {
     let mut t: Vec<usize> = s.char_indices().map(|(i, _)| i).collect();
     t.push(s.len());
     t
 }
-fn from_table(t: &[usize], (a, b): (usize, usize)) -> Option<(usize, usize)> {
+pub fn from_table(t: &[usize], (a, b): (usize, usize)) -> Option<(usize, usize)> {
     let x = t.binary_search(&a).ok()?;
     let y = t.binary_search(&b).ok()?;
     if x <= y {
@@ -809,7 +839,7 @@ fn from_table(t: &[usize], (a, b): (usize, usize)) -> Option<(usize, usize)> {
         None
     }
 }
-fn index_norm(n: usize, (a, b): (usize, usize)) -> Option<(usize, usize)> {
+pub fn index_norm(n: usize, (a, b): (usize, usize)) -> Option<(usize, usize)> {
     if a <= b && b <= n {
         Some((a, b))
     } else {
@@ -844,7 +874,12 @@ pub fn run_slice<C: for<'x> Cfg<'x, &'x [char]>>(job: &Job, acc: &mut Acc) {
     );
 }
 
-pub type StreamIn = chumsky::input::Stream<std::vec::IntoIter<char>>;
+pub type CountingIter = std::iter::Map<std::iter::Enumerate<std::vec::IntoIter<char>>, fn((usize, char)) -> char>;
+pub fn counting(v: Vec<char>) -> CountingIter {
+    PULL_LAST.with(|l| l.set(None));
+    v.into_iter().enumerate().map(log_item as fn((usize, char)) -> char)
+}
+pub type StreamIn = chumsky::input::Stream<CountingIter>;
 impl<'a> InK<'a> for StreamIn {
     type T = char;
     type S = SimpleSpan<usize>;
@@ -853,7 +888,7 @@ pub fn run_stream<C: for<'x> Cfg<'x, StreamIn>>(job: &Job, acc: &mut Acc) {
     let bufs: Vec<Vec<char>> = job.inputs.to_vec();
     run_generic::<StreamIn, C>(
         job,
-        &|i| chumsky::input::Stream::from_iter(bufs[i].clone()),
+        &|i| chumsky::input::Stream::from_iter(counting(bufs[i].clone())),
         &|_| (0, 0),
         &|i, s, _| index_norm(bufs[i].len(), s),
         &ident,
@@ -870,7 +905,7 @@ pub fn run_boxed_stream<C: for<'x> Cfg<'x, BoxedStreamIn<'x>>>(job: &Job, acc: &
     let bufs: Vec<Vec<char>> = job.inputs.to_vec();
     run_generic::<BoxedStreamIn, C>(
         job,
-        &|i| chumsky::input::Stream::from_iter(bufs[i].iter().copied()).boxed(),
+        &|i| chumsky::input::Stream::from_iter(counting(bufs[i].clone())).boxed(),
         &|_| (0, 0),
         &|i, s, _| index_norm(bufs[i].len(), s),
         &ident,
@@ -1009,4 +1044,64 @@ pub fn run_map_span<C: for<'x> Cfg<'x, MapSpanIn<'x>>>(job: &Job, acc: &mut Acc)
         &ident,
         acc,
     );
+}
+
+pub const ARR_N: usize = 3;
+impl<'a> InK<'a> for &'a [char; ARR_N] {
+    type T = char;
+    type S = SimpleSpan<usize>;
+    fn to_slice<C: Cfg<'a, Self>>(p: BP<'a, Self, C>) -> BP<'a, Self, C> {
+        p.to_slice().map(chars_slice_val).fin()
+    }
+    fn slice_with<C: Cfg<'a, Self>>(p: BP<'a, Self, C>) -> BP<'a, Self, C> {
+        p.map_with(|_, e| chars_slice_val(e.slice())).fin()
+    }
+}
+/// `&[T; N]`: only the inputs of length exactly N are run (the others are skipped by `mk` never being
+/// called: the job's input list is filtered by the unit)
+pub fn run_array<C: for<'x> Cfg<'x, &'x [char; ARR_N]>>(job: &Job, acc: &mut Acc) {
+    let bufs: Vec<[char; ARR_N]> = job.inputs.iter().map(|t| { let mut a = ['?'; ARR_N]; for (i, c) in t.iter().take(ARR_N).enumerate() { a[i] = *c; } a }).collect();
+    assert!(job.inputs.iter().all(|t| t.len() == ARR_N), "array kind needs inputs of length {ARR_N}");
+    run_generic::<&[char; ARR_N], C>(
+        job,
+        &|i| &bufs[i],
+        &|i| (bufs[i].as_ptr() as usize, ARR_N * 4),
+        &|_, s, _| index_norm(ARR_N, s),
+        &ident,
+        acc,
+    );
+}
+
+impl<'a> InK<'a> for bytes::Bytes {
+    type T = u8;
+    type S = SimpleSpan<usize>;
+    fn to_slice<C: Cfg<'a, Self>>(p: BP<'a, Self, C>) -> BP<'a, Self, C> {
+        p.to_slice().map(|b: bytes::Bytes| u8_slice_val(&b)).fin()
+    }
+    fn slice_with<C: Cfg<'a, Self>>(p: BP<'a, Self, C>) -> BP<'a, Self, C> {
+        p.map_with(|_, e| { let b: bytes::Bytes = e.slice(); u8_slice_val(&b) }).fin()
+    }
+}
+pub fn run_bytes<C: for<'x> Cfg<'x, bytes::Bytes>>(job: &Job, acc: &mut Acc) {
+    let bufs: Vec<bytes::Bytes> = job.inputs.iter().map(|t| bytes::Bytes::from(t.iter().map(|c| *c as u8).collect::<Vec<u8>>())).collect();
+    run_generic::<bytes::Bytes, C>(
+        job,
+        &|i| bufs[i].clone(),
+        &|i| (bufs[i].as_ptr() as usize, bufs[i].len()),
+        &|i, s, _| index_norm(bufs[i].len(), s),
+        &ident,
+        acc,
+    );
+}
+
+// ---- small helpers for the other engines -------------------------------------------------------------------
+pub fn buf_off(ptr: usize, len: usize) -> usize {
+    crate::interp::buf_offset(ptr, len)
+}
+#[allow(non_snake_case)]
+pub fn BUF_SET(base: usize, len: usize) {
+    BUF.with(|b| b.set((base, len)));
+}
+pub fn map_tok_fn<'a>() -> MapFn<'a> {
+    map_tok as MapFn<'a>
 }
